@@ -309,6 +309,8 @@ func runC12(c *Ctx) {
 	// ---- R12.3
 	c.decodeRejections("R12.3")
 	c.arityGate("R12.3")
+	c.rule("R12.4", "handler arguments are only ever produced by encoding/json or the registered parameter decoder (type mismatches cannot be bypassed)")
+	c.argumentOrigins("R12.4")
 }
 
 func isStringParam(v ssa.Value, fn *ssa.Function) bool {
@@ -477,4 +479,123 @@ func (c *Ctx) decodeRejections(rule string) {
 	if n == 0 {
 		c.und(rule, fname(d)+": parameter decodes", "-", "no parameter decode found in the dispatcher")
 	}
+}
+
+// argumentOrigins: R12.4 — closed world of what can become a handler argument. Every element stored
+// into the argument list of the reflective call is reflect.ValueOf(x) where x is the receiver /
+// context / raw params, or the Interface() of a value that is reflect.New(declared type) (filled by
+// encoding/json) or the result of the registered parameter decoder. Any other construction (a
+// hand-written fast path with SetInt, a cached value) bypasses encoding/json's type and range checks,
+// so a mismatching parameter would run the handler.
+func (c *Ctx) argumentOrigins(rule string) {
+	p, r := c.P, c.R
+	if r.FnDisp == nil {
+		c.und(rule, "dispatcher", "-", "not resolved")
+		return
+	}
+	n := 0
+	p.coneInstrs(r.FnDisp, func(in ssa.Instruction) {
+		st, ok := in.(*ssa.Store)
+		if !ok || !isNamed(st.Val.Type(), "reflect", "Value") {
+			return
+		}
+		ia, ok := st.Addr.(*ssa.IndexAddr)
+		if !ok {
+			return
+		}
+		sl, ok := ia.X.Type().Underlying().(*types.Slice)
+		if !ok || !isNamed(sl.Elem(), "reflect", "Value") {
+			return
+		}
+		// only argument lists that reach a reflective call
+		n++
+		construct := fmt.Sprintf("%s: handler argument", fname(in.Parent()))
+		bad := ""
+		for _, o := range c.origins(st.Val) {
+			if k, isK := o.Root.(*ssa.Const); isK && k.Value == nil && len(o.Fields) == 0 {
+				continue // the zero reflect.Value returned next to an error by a decoding helper
+			}
+			if len(o.Fields) != 0 {
+				if isNamed(o.Fields[len(o.Fields)-1].Type(), "reflect", "Value") {
+					continue // a reflect.Value kept in the method table (the receiver)
+				}
+				bad = "field " + o.Fields[len(o.Fields)-1].Name()
+				continue
+			}
+			call, ok := o.Root.(*ssa.Call)
+			if !ok || calleeName(call) != "reflect.ValueOf" {
+				bad = fmt.Sprintf("%T", o.Root)
+				if ok {
+					bad = calleeName(call)
+				}
+				continue
+			}
+			// ValueOf(rp.Interface()): rp must be reflect.New(...) or a decoder result
+			arg := stripConv(call.Common().Args[0])
+			ic, ok := arg.(*ssa.Call)
+			if !ok || calleeName(ic) != "(reflect.Value).Interface" {
+				continue // ValueOf(ctx), ValueOf(RawParams(...))
+			}
+			for _, o2 := range c.origins(ic.Common().Args[0]) {
+				if k, isK := o2.Root.(*ssa.Const); isK && k.Value == nil && len(o2.Fields) == 0 {
+					continue
+				}
+				c2, ok := o2.Root.(*ssa.Call)
+				if len(o2.Fields) == 0 && ok && calleeName(c2) == "(reflect.Value).Elem" {
+					// rp.Elem() of the freshly allocated, decoded pointer
+					inner := c.origins(c2.Common().Args[0])
+					if len(inner) == 1 && len(inner[0].Fields) == 0 {
+						if c3, ok := inner[0].Root.(*ssa.Call); ok {
+							c2 = c3
+						}
+					}
+				}
+				if len(o2.Fields) == 0 && ok && calleeName(c2) == "reflect.New" && decodedInto(c2) {
+					continue
+				}
+				if ex, isEx := o2.Root.(*ssa.Extract); isEx && len(o2.Fields) == 0 {
+					if dc, ok := ex.Tuple.(*ssa.Call); ok && staticCallee(dc) == nil && !dc.Common().IsInvoke() {
+						continue // dynamic call: the registered parameter decoder
+					}
+				}
+				bad = "a value that is neither reflect.New(type) nor a decoder result"
+			}
+		}
+		c.check(bad == "", rule, construct, c.ipos(st), "reflect.ValueOf of the receiver/context/raw params or of a value decoded by encoding/json / the registered decoder",
+			"a handler argument is produced by "+bad+" instead of encoding/json or the registered parameter decoder: its type and range checks are bypassed, so a parameter that does not fit the declared type (e.g. 300 for an int8) runs the handler with a truncated value instead of being rejected")
+	})
+	if n == 0 {
+		c.und(rule, "argument list stores", "-", "no store of a reflect.Value into an argument list found in the dispatcher")
+	}
+}
+
+// decodedInto: the pointer made by this reflect.New call is handed (as Interface()) to encoding/json.
+func decodedInto(newCall *ssa.Call) bool {
+	if newCall.Referrers() == nil {
+		return false
+	}
+	found := false
+	var walk func(v ssa.Value, d int)
+	walk = func(v ssa.Value, d int) {
+		if v.Referrers() == nil || d > 4 || found {
+			return
+		}
+		for _, ref := range *v.Referrers() {
+			switch x := ref.(type) {
+			case *ssa.Phi:
+				walk(x, d+1)
+			case *ssa.Call:
+				if calleeName(x) == "(reflect.Value).Interface" && len(x.Common().Args) > 0 && x.Common().Args[0] == v {
+					// the interface value flows into a decode call
+					for _, r2 := range *x.Referrers() {
+						if ci, ok := r2.(ssa.CallInstruction); ok && decodeTarget(ci) == ssa.Value(x) {
+							found = true
+						}
+					}
+				}
+			}
+		}
+	}
+	walk(newCall, 0)
+	return found
 }
